@@ -55,6 +55,17 @@ pub fn gen_attrs(t: &mut Tape, depth: usize, ets: &[String], o: &SchemaOpts, max
         let req = t.bool_p(3, 5);
         m.insert(name.to_string(), (ty, req));
     }
+    // twin attributes: the same type under a sibling name of the same length (`home` / `work`, `owner` / `peers`) —
+    // a guard written for one of them must not make the other one safe
+    if !m.is_empty() && t.bool_p(1, 4) {
+        let keys: Vec<String> = m.keys().cloned().collect();
+        let k = keys[t.upto(keys.len())].clone();
+        let alts: Vec<&str> = ATTR_NAMES.iter().copied().filter(|a| a.len() == k.len() && !m.contains_key(*a)).collect();
+        if !alts.is_empty() {
+            let twin = m[&k].clone();
+            m.insert(alts[t.upto(alts.len())].to_string(), twin);
+        }
+    }
     m
 }
 
@@ -854,10 +865,12 @@ impl<'a> TGen<'a> {
                 if let Some(bp) = self.paths.iter().find(|p| format!("{:?}", p.e) == key).cloned() {
                     let last_len = |e: &E| if let E::GetAttr(_, k) = e { k.len() } else { 0 };
                     let sibs: Vec<Path> = self.paths.iter().filter(|p| p.ty == bp.ty && format!("{:?}", p.e) != key).cloned().collect();
-                    // prefer siblings whose last attribute name is as long as the original's
-                    let same_len: Vec<Path> = sibs.iter().filter(|p| last_len(&p.e) == last_len(&bp.e)).cloned().collect();
+                    // prefer true siblings (same parent expression) whose attribute name is as long as the original's
+                    let inner = |e: &E| if let E::GetAttr(i, _) = e { format!("{:?}", i) } else { String::new() };
+                    let same_len: Vec<Path> = sibs.iter().filter(|p| last_len(&bp.e) > 0 && last_len(&p.e) == last_len(&bp.e) && inner(&p.e) == inner(&bp.e)).cloned().collect();
+                    let kind: &'static str = if same_len.is_empty() { "guard-on-sibling" } else { "guard-on-sibling-of-equal-name-length" };
                     let pool = if same_len.is_empty() { sibs } else { same_len };
-                    if !pool.is_empty() && self.trap_here(t, "guard-on-sibling") {
+                    if !pool.is_empty() && self.trap_here(t, kind) {
                         let sp = pool[t.upto(pool.len())].clone();
                         let mut gs: Vec<E> = guards[..guards.len() - 1].to_vec();
                         gs.extend(sp.guards.clone());
